@@ -266,6 +266,14 @@ impl Prop for C15 {
             let o = ConnOpts { v6, framing, max_parts: 3, gap_lo: 50_000, gap_hi: 20_000_000, tls_single_segment: kind == Kind::Unified };
             let ck = super::c07::kinds_for(kind, r);
             let mut c = conn::build(r, ck, *c, *s, &o);
+            // one IPv4 connection in eight travels with IP options on every packet (record route, padding: 4..40
+            // bytes), so that the header faults below also meet packets whose IP header is longer than 20 bytes
+            if !v6 && r.chance(1, 8) {
+                let n = 4 * r.urange(1, 10);
+                for st in c.steps.iter_mut() {
+                    st.seg.ip_opts = vec![1u8; n];
+                }
+            }
             // frame-size extreme: on one IPv6 connection in ten the SYN carries so much data that the IP part of the
             // frame is 65536..65575 bytes (what a 64 KiB loopback MTU allows; lengths that no longer fit 16 bits)
             if v6 && r.chance(1, 10) {
